@@ -230,6 +230,8 @@ func runC07(r resIface, c *c07case, rng *prng.R, scratch string) {
 		c.FailKey = fk.key
 		if c.Fail == "busykey" {
 			srv.Put(fk.db, fk.key, &rdbgen.Value{Kind: "string", Str: []byte("already-there")}, 0)
+		} else if c.Fail == "drop" {
+			srv.Faults = append(srv.Faults, &miniredis.Fault{Cmd: "restore", Key: fk.key, Nth: 1, Reply: miniredis.DropConn})
 		} else {
 			srv.Faults = append(srv.Faults, &miniredis.Fault{Cmd: "restore", Key: fk.key, Nth: 1, Reply: miniredis.ErrReply(c.FailMsg)})
 		}
@@ -296,6 +298,30 @@ func runC07(r resIface, c *c07case, rng *prng.R, scratch string) {
 		return fmt.Sprintf("C07|mode=%s|outcome=%s|filter=%s|targetdb=%v", c.Mode, o, f, c.TargetDB != -1)
 	}
 	if c.Fail != "" {
+		// whatever the outcome of a run with a failure in it: no key may sit in a database it does not belong to
+		wantAt := map[string]bool{}
+		for _, w := range want {
+			wantAt[fmt.Sprintf("%d/%s", w.db, w.key)] = true
+		}
+		for db, keys := range snap {
+			for k := range keys {
+				if !wantAt[fmt.Sprintf("%d/%s", db, k)] {
+					r.Violation(sig("key-in-wrong-database-after-failure"), fmt.Sprintf("after a run with an injected failure (%s on key %q) the target holds key %q in db %d, where the configuration puts no such key", c.Fail, c.FailKey, k, db), c)
+					return
+				}
+			}
+		}
+	}
+	if c.Fail == "drop" {
+		// a dropped connection may be reported as a failure, or survived (reconnect and retry): in that case the run is
+		// judged like any other - every key exactly once (counting applied commands) in the right database
+		r.Count("failure_injections", 1)
+		r.Count("connection_drops_injected", 1)
+		if retErr != nil {
+			r.Count("connection_drops_reported_as_error", 1)
+			return
+		}
+	} else if c.Fail != "" {
 		r.Count("failure_injections", 1)
 		if c.Mode == "sync" && retErr == nil {
 			r.Violation(sig("failure-not-reported"), fmt.Sprintf("restore of key %q failed at the target (%s) but syncRDBFile returned nil", c.FailKey, c.Fail), c)
@@ -314,7 +340,7 @@ func runC07(r resIface, c *c07case, rng *prng.R, scratch string) {
 	perKey := map[string]int{}
 	srv.Mu.Lock()
 	for _, l := range srv.Log[:logAtReturn] {
-		if l.Name == "restore" && len(l.Args) > 0 {
+		if l.Name == "restore" && len(l.Args) > 0 && l.Reply != "drop" {
 			perKey[fmt.Sprintf("%d/%s", l.DB, l.Args[0])]++
 		}
 	}
@@ -509,6 +535,11 @@ func c07runsChild(raw json.RawMessage, scratch string) {
 			c.DBs = append(c.DBs, all[p])
 		}
 		sort.Ints(c.DBs)
+		if i%6 == 2 && i/6%3 == 0 && c.Mode == "sync" {
+			// the target drops a worker's connection in the middle of the phase, with and without a fixed target database
+			c.Fail = "drop"
+			c.TargetDB = []int{2, -1, 5}[i/18%3]
+		}
 		if i%6 == 5 {
 			c.Fail = "err"
 			if i/6%4 == 3 {
@@ -544,6 +575,13 @@ func c07(c *wk.Ctx) {
 		}
 		var cs c07case
 		json.Unmarshal(d.Desc, &cs)
+		if cs.Fail == "drop" {
+			r.Count("runs", 1)
+			r.Count("failure_injections", 1)
+			r.Count("connection_drops_injected", 1)
+			r.Count("failures_reported_by_exit", 1)
+			return
+		}
 		if cs.Fail != "" && cs.Mode == "restore" {
 			r.Count("runs", 1)
 			r.Count("failure_injections", 1)
@@ -568,6 +606,7 @@ func c07(c *wk.Ctx) {
 	r.Floor("second_rounds_over_a_populated_target", 8)
 	r.Floor("runs", 100)
 	r.Floor("failure_injections", 10)
+	r.Floor("connection_drops_injected", 4)
 	r.Floor("mode:sync", 50)
 	r.Floor("mode:restore", 20)
 	r.Floor("max_connections_pending_together", 4)
